@@ -8,8 +8,8 @@ use std::str::FromStr;
 
 pub fn lanes() -> Vec<Lane> {
     vec![
-        Lane { name: "documents", count: |c| DOCS.len() as u64 * if c.thorough() { 60_000 } else { 4_000 }, run: documents_lane },
-        Lane { name: "invalid", count: |c| DOCS.len() as u64 * if c.thorough() { 20_000 } else { 1_500 }, run: invalid_lane },
+        Lane { name: "documents", count: |c| DOCS.len() as u64 * if c.thorough() { 60_000 } else { 15_000 }, run: documents_lane },
+        Lane { name: "invalid", count: |c| DOCS.len() as u64 * if c.thorough() { 20_000 } else { 5_000 }, run: invalid_lane },
     ]
 }
 
